@@ -105,7 +105,19 @@ fn process_request_obj(request: &Request, dbs: &Arc<Databases>, client: &mut Cli
             &dbs,
             &client,
             &key,
-            &|_db| remove_key(&key, _db),
+            &|_db| {
+                let response = remove_key(&key, _db);
+                // A secondary forwards the remove to the primary, as it does for set
+                if !dbs.is_primary() {
+                    if let Response::Ok {} = response {
+                        send_message_to_primary(
+                            get_replicate_remove_message(_db.name.to_string(), key.clone()),
+                            dbs,
+                        );
+                    }
+                }
+                response
+            },
             PermissionKind::Remove,
         ),
 
